@@ -18,6 +18,8 @@ import (
 // schedule (one "done" line per scenario); the property is evaluated on what was observed.
 //
 // op: par <producers> <msgs per producer> <maxSize> <queue capacity> <close after n sends | -1> <seed>
+//     strand <maxSize> <len1> <len2>  two Sends, then silence: with the REAL timer (2ms) every
+//                               accepted message must come out of Queue within a generous deadline
 //     closerace <iterations>    Close racing with the timer callback (Send; wait ~timeout; Close)
 //     closerace-det <iterations> the same schedule forced: while another lock holder (standing
 //                               for a Send in progress) has the mutex, Close queues for it first and
@@ -29,6 +31,9 @@ func TestVerifC32Par(t *testing.T) {
 	if lines == nil {
 		// corpus first: Close while the timer callback is running (deadlocked in the unrepaired
 		// code: Close held the mutex while Timer.Stop waited for the callback, which needs the mutex)
+		for _, st := range []string{"strand 20 8 8", "strand 10 5 5", "strand 300 127 128", "strand 40 30 30"} {
+			lines = append(lines, st)
+		}
 		lines = append(lines, "closerace-det 3", fmt.Sprintf("closerace %d", r.N(1000, 60000)))
 		n := r.N(150, 4000)
 		for i := 0; i < n; i++ {
@@ -54,6 +59,18 @@ func TestVerifC32Par(t *testing.T) {
 			}
 			r.Emit(l, "done")
 			c32CloseRace(r, n)
+			continue
+		}
+		if len(f) == 4 && f[0] == "strand" {
+			mx, e1 := strconv.Atoi(f[1])
+			n1, e2 := strconv.Atoi(f[2])
+			n2, e3 := strconv.Atoi(f[3])
+			if e1 != nil || e2 != nil || e3 != nil || mx < 0 || n1 < 0 || n2 < 0 {
+				r.Emit(l, "bad-op")
+				continue
+			}
+			r.Emit(l, "done")
+			c32Strand(r, mx, n1, n2)
 			continue
 		}
 		if len(f) == 2 && f[0] == "closerace-det" {
@@ -119,6 +136,32 @@ func c32CloseRaceDet(r *verifh.Run) bool {
 	}
 	r.Count("closerace-det:ok")
 	return true
+}
+
+// c32Strand: no further Send/Close after the two Sends - only the timer can emit what is pending.
+func c32Strand(r *verifh.Run, mx, n1, n2 int) {
+	m := NewMessageBuffer(&c32Log{}, 8, mx, 2*time.Millisecond)
+	defer func() { _ = m.Close() }()
+	accepted := 0
+	for i, n := range []int{n1, n2} {
+		if m.Send(c32Msg(n, i+1)) == nil {
+			accepted++
+		}
+	}
+	got := 0
+	deadline := time.After(5 * time.Second)
+	for got < accepted {
+		select {
+		case b := <-m.Queue:
+			ms, _ := ParseBatchMessage(b)
+			got += len(ms)
+		case <-deadline:
+			r.Violation("accepted-message-never-flushed",
+				"maxSize %d, Send(%d bytes), Send(%d bytes), then silence: %d accepted, only %d emitted within 5s (timer timeout 2ms)", mx, n1, n2, accepted, got)
+			return
+		}
+	}
+	r.Count("strand:ok")
 }
 
 func c32CloseRace(r *verifh.Run, n int) {
